@@ -28,6 +28,7 @@ import (
 	"github.com/lightninglabs/neutrino"
 	"github.com/lightninglabs/neutrino/blockntfns"
 	"github.com/lightninglabs/neutrino/pushtx"
+	"verifharness/rejcorpus"
 	"verifharness/tr"
 )
 
@@ -69,6 +70,32 @@ type world struct {
 	tick0     time.Time
 	period    time.Duration
 	dummy     chainhash.Hash
+	r         *rand.Rand
+}
+
+// classOf: ground-truth class (property vocabulary, see rejcorpus) of a scripted result.
+var classOf = map[string]string{"mempool": "mempool", "confirmed": "confirmed", "invalid": "invalid", "fee": "fee", "unknown": "other"}
+
+// netErr is what the scripted network answers for the scripted result `res`.  Half of
+// the time the error is not built by hand but is what the REAL pushtx.ParseBroadcastError
+// makes of a realistic btcd/bitcoind reject message whose hand-written ground-truth class
+// is `res` (with the transaction's id embedded as the real nodes do), so that the path
+// reject message -> classification -> handler/rebroadcast decision is exercised end to end.
+func (w *world) netErr(res string, tx *wire.MsgTx) error {
+	class, ok := classOf[res]
+	if !ok || w.r.Intn(2) == 0 {
+		return errOf(res, w.mapper)
+	}
+	es := rejcorpus.OfClass(class)
+	e := es[w.r.Intn(len(es))]
+	reason := rejcorpus.Render(e, w.r, tx.TxHash().String())
+	w.t.Line("# via %s reject %s <%s> (ground truth: %s)", e.Node, e.Code, reason, class)
+	w.t.Hit("corpus." + class + "." + e.Node)
+	var err error = pushtx.ParseBroadcastError(&wire.MsgReject{Cmd: wire.CmdTx, Code: e.Code, Reason: reason, Hash: tx.TxHash()}, "10.0.0.1:18444")
+	if w.mapper {
+		return &customErr{err}
+	}
+	return err
 }
 
 var resNames = []string{"accepted", "mempool", "confirmed", "invalid", "fee", "unknown", "plain"}
@@ -169,7 +196,7 @@ func mkTxs(r *rand.Rand, n int) ([]*wire.MsgTx, [][]int) {
 }
 
 func newWorld(t *tr.W, r *rand.Rand, txs []*wire.MsgTx, tick, mapper bool) *world {
-	w := &world{t: t, txs: txs, idOf: map[chainhash.Hash]int{}, tick: tick, mapper: mapper,
+	w := &world{t: t, r: r, txs: txs, idOf: map[chainhash.Hash]int{}, tick: tick, mapper: mapper,
 		calls: make(chan *cbCall, 64), ntfn: make(chan blockntfns.BlockNtfn),
 		cancelled: make(chan struct{}), period: time.Hour}
 	for i, tx := range txs {
@@ -307,7 +334,7 @@ func (w *world) bcast(i int, res string) {
 				c.resp <- errOf("mempool", w.mapper)
 				continue
 			}
-			c.resp <- errOf(res, w.mapper)
+			c.resp <- w.netErr(res, tx)
 		case err := <-errc:
 			w.t.Op(op, nameOf(err))
 			if w.quitSent {
@@ -394,7 +421,7 @@ func (w *world) rbres(res string) {
 	op := fmt.Sprintf("rbres %d %s", w.id(c.tx), res)
 	w.align()
 	w.inflight = nil
-	c.resp <- errOf(res, w.mapper)
+	c.resp <- w.netErr(res, c.tx)
 	if w.quitSent {
 		w.t.Hit("branch.rbres.after-quit")
 		select {
@@ -442,7 +469,7 @@ func (w *world) bcastDuringStop(i int, res string) {
 		leaked++
 		w.t.Op(op, "HANG")
 	}
-	c.resp <- errOf(res, w.mapper)
+	c.resp <- w.netErr(res, tx)
 	w.awaitCancel()
 }
 
@@ -691,7 +718,23 @@ func parseCase(t *tr.W, r *rand.Rand, rounds int) {
 			ws = append(ws, s)
 			ws = append(ws, words(r.Intn(2))...)
 		}
-		emit(c, strings.Join(ws, " "))
+		reason := strings.Join(ws, " ")
+		switch r.Intn(12) {
+		case 0:
+			reason = strings.ToUpper(reason)
+		case 1:
+			reason = strings.Title(reason)
+		}
+		emit(c, reason)
+	}
+	// the labelled corpus, bare and decorated, through the real classifier (model = regenerated table)
+	for _, e := range rejcorpus.Corpus {
+		var h chainhash.Hash
+		r.Read(h[:])
+		reason := rejcorpus.Render(e, r, h.String())
+		emit(e.Code, reason)
+		emit(e.Code, "rejected: "+reason)
+		emit(e.Code, reason+" (code "+fmt.Sprint(uint8(e.Code))+")")
 	}
 }
 
